@@ -16,7 +16,12 @@ from scipy import sparse
 
 import pyttb as ttb
 from pyttb import pyttb_utils as ttb_utils
-from pyttb.pyttb_utils import OneDArray, parse_one_d, to_memory_order
+from pyttb.pyttb_utils import (
+    OneDArray,
+    get_mttkrp_factors,
+    parse_one_d,
+    to_memory_order,
+)
 
 ALT_CORE_ERROR = "TTensor doesn't support non-tensor cores yet. Only tensor/sptensor."
 
@@ -446,8 +451,8 @@ class ttensor:
         # NOTE: MATLAB version calculates an unused R here
 
         W = [np.empty((), order=self.order)] * self.ndims
-        if isinstance(U, ttb.ktensor):
-            U = U.factor_matrices
+        # Absorbs the weights of a ktensor operand like the other tensor classes
+        U = get_mttkrp_factors(U, n, self.ndims)
         for i in range(0, self.ndims):
             if i == n:
                 continue
